@@ -345,6 +345,47 @@ def run_writers(case):
     return {"viol": viol, "nontrivial": len(case["writes"]) > 0, "outcome": "writers-ok" if not viol else viol[0]["sig"]}
 
 
+ODD_FNAMES = ["K_{run1}.txt", "table_{base}.txt", "{}", "a b.txt", "vp.dat.txt", "path:vp.txt"]     # "path:" = handed over as pathlib.Path
+
+
+def run_fnames(case):
+    """file-name overrides that are not plain identifiers: braces, blanks, a pathlib.Path; the table must be written under
+    exactly the given name"""
+    from cij.core.calculator import Calculator
+    from cij.io.output.results_writer import ResultsWriter
+    import pathlib
+    spec = dict(nv=6, nq=2, na=1, lattice="power", system="orthorhombic", compset="minimal", static="generic",
+                weights="increasing", qha=dict(GRIDS["g0"]))
+    viol = []
+    with K.scratch() as d:
+        synth.write(d, spec)
+        try:
+            c = Calculator(os.path.join(d, "settings.yaml"))
+        except Exception as ex:
+            return {"viol": [V(f"c15:calculator-raises:{type(ex).__name__}", K.fmt_exc(ex))], "outcome": "raises"}
+        base = c.pressure_base if case["base"] == "tp" else c.volume_base
+        name = case["fname"]
+        given = pathlib.Path(name[5:]) if name.startswith("path:") else name
+        want = name[5:] if name.startswith("path:") else name
+        out = os.path.join(d, "out")
+        os.makedirs(out)
+        with K.chdir(out):
+            try:
+                ResultsWriter(base).write({"keyword": case["kw"], "fname": given})
+            except Exception as ex:
+                return {"viol": [V(f"c15:fname-override:raises:{type(ex).__name__}", f"file name {given!r} for keyword {case['kw']!r}: {K.fmt_exc(ex)}")], "outcome": "raises"}
+            got = sorted(os.listdir("."))
+            if got != [want]:
+                viol.append(V("c15:fname-override:other-name", f"file name {given!r} for keyword {case['kw']!r}: files written {got}"))
+            else:
+                pat, unit, what, canon = DOC[case["kw"]]
+                vals = parse_table(want)[3]
+                ref = numpy.asarray(getattr(base, what), float)[:GRIDS["g0"]["NT"], :] * FACTOR[unit]
+                if vals.shape != ref.shape or not numpy.all(numpy.abs(vals - ref) <= 1e-7 * numpy.abs(ref) + 1e-300):
+                    viol.append(V("c15:fname-override:values", f"{want}: values differ from the in-memory result"))
+    return {"viol": viol, "nontrivial": True, "outcome": "fname-ok" if not viol else viol[0]["sig"]}
+
+
 SEQ_ALPHABET = ["bm_V", "B_V", {"keyword": "bm_V", "unit": "kbar", "fname": "bm_V_kbar.txt"}, {"keyword": "bulk_modulus_voigt", "fname": "copy_of_bm_V.txt"},
                 "cij", "cij_s", "cij_t", {"keyword": "cij", "unit": "kbar"}, "vs", {"keyword": "v_s", "unit": "m/s", "fname": "vs_m_s.txt"}]
 
@@ -394,16 +435,19 @@ def run_sequence(case):
                     expected[pat.format(ij="%d%d" % tuple(k.voigt), base=base_name)] = (numpy.asarray(src[k], float), factor)
             else:
                 expected[cfg.get("fname") or pat.format(base=base_name)] = (numpy.asarray(getattr(base, what), float), factor)
+        container = case.get("container", "list")
+        handed = {"list": lambda: requests, "tuple": lambda: tuple(requests), "iterator": lambda: iter(requests),
+                  "generator": lambda: (r for r in requests), "dict-values": lambda: dict(enumerate(requests)).values()}[container]()
         with K.chdir(out):
             try:
-                base.write_variables(requests)
+                base.write_variables(handed)
             except Exception as ex:
-                return {"viol": [V(f"c15:sequence-raises:{type(ex).__name__}", f"{case['seq']}: {K.fmt_exc(ex)}")], "outcome": "raises"}
+                return {"viol": [V(f"c15:sequence-raises:{type(ex).__name__}" + ("" if container == "list" else ":" + container), f"{case['seq']} handed over as {container}: {K.fmt_exc(ex)}")], "outcome": "raises"}
             if requests != snapshot:
                 viol.append(V("c15:sequence:request-mutated", f"the request objects {snapshot} were changed to {requests} by writing them"))
             got = set(os.listdir("."))
             if got != set(expected):
-                viol.append(V("c15:sequence:files", f"requests {case['seq']} on {base_name}: missing {sorted(set(expected) - got)[:4]}, unexpected {sorted(got - set(expected))[:4]}"))
+                viol.append(V("c15:sequence:files" + ("" if container == "list" else ":" + container), f"requests {case['seq']} (handed over as {container}) on {base_name}: missing {sorted(set(expected) - got)[:4]}, unexpected {sorted(got - set(expected))[:4]}"))
             for fn, (arr, factor) in expected.items():
                 if fn not in got:
                     continue
@@ -424,7 +468,7 @@ def explore(ctx):
                 "documented table) written through ResultsWriter into its own directory and re-read by an independent parser; unit and "
                 "file-name overrides; write_output() with a mixed output section; writer OBJECTS with packaged and with user rules (re-using a packaged keyword) created in 4 orders and kept alive, all sequences of <=2 writes over 8 (writer, keyword) letters; every documented keyword and alias requested through the settings file's output section in 4 forms (string, mapping, +unit, +fname) and rule by rule; all ordered sequences of <=2 (<=3 thorough) requests from a "
                 "10-letter alphabet (keywords, aliases, unit/file-name overrides of 3 rules) through ONE writer: every request leaves its file "
-                "with the content of the last request naming it, request objects unchanged, also after the same objects were first written on the other base; non-trivial = more than 5 files checked / sequence longer than 1")
+                "with the content of the last request naming it, request objects unchanged, also after the same objects were first written on the other base, and when the requests are handed over as tuple / iterator / generator / dict view; file-name overrides with braces, blanks, several dots or given as pathlib.Path; non-trivial = more than 5 files checked / sequence longer than 1")
     ctx.assumptions = ["expected names/units transcribed from docs/usage/output.rst as rendered from the pinned writer_rules.yml", "CODATA unit factors from scipy.constants",
                        "file-name override asserted only for single-table keywords (for c_ij keywords one name cannot serve several components)"]
     cases = [{"grid": g, "ncomp": n, "base": b} for g in GRIDS for n in SYSTEMS for b in ("tp", "tv") if n != "cubic-inconsistent" or g in ("g0", "g3")]
@@ -434,6 +478,8 @@ def explore(ctx):
     wcases = [{"create": cr, "writes": [list(w) for w in ws]} for cr in (["S", "C"], ["C", "S"], ["S", "C", "S2"], ["C", "S", "C2"])
               for L in (1, 2) for ws in itertools.product(WRITER_WRITES, repeat=L)]
     res += ctx.run(MOD, "run_writers", wcases, part="writer-objects", chunksize=8, transitions=sum(len(c["writes"]) + len(c["create"]) for c in wcases))
+    res += ctx.run(MOD, "run_fnames", [{"fname": f, "kw": kw, "base": b} for f in ODD_FNAMES for kw, b in (("v_p", "tp"), ("bm_VRH", "tv"), ("V", "tp"))],
+                   part="file-name-overrides", chunksize=2)
     canons = sorted({v[3] for v in DOC.values()})
     res += ctx.run(MOD, "run_settings_route", [{"form": f} for f in ("string", "mapping", "mapping+unit", "mapping+fname")] +
                    [{"form": "string", "only": cn} for cn in canons], part="settings-route", chunksize=1)
@@ -441,7 +487,9 @@ def explore(ctx):
     seqs = [list(sq) for L in ((1, 2) if ctx.quick else (1, 2, 3)) for sq in itertools.product(SEQ_ALPHABET, repeat=L)]
     both = [{"seq": sq, "base": b, "both_bases": True} for sq in seqs if len(sq) <= 2 and not any((r if isinstance(r, str) else r["keyword"]) in ("vs", "v_s") and False for r in sq)
             for b in ("tp", "tv")]
-    res += ctx.run(MOD, "run_sequence", [{"seq": sq, "base": b} for sq in seqs for b in (("tp",) if ctx.quick else ("tp", "tv"))] + both,
+    conts = [{"seq": sq, "base": "tp", "container": ct} for sq in seqs if len(sq) == 2 and sq[0] != sq[1] for ct in ("tuple", "iterator", "generator", "dict-values")
+             if ct != "tuple" or isinstance(sq[0], str)][:(160 if ctx.quick else None)]
+    res += ctx.run(MOD, "run_sequence", [{"seq": sq, "base": b} for sq in seqs for b in (("tp",) if ctx.quick else ("tp", "tv"))] + both + conts,
                    part="request-sequences", chunksize=4, transitions=sum(len(sq) for sq in seqs))
     ctx.notes["files_checked"] = sum(r.get("files", 0) for r in res)
     ctx.notes["keywords"] = sorted(DOC)
